@@ -25,17 +25,21 @@ CLAIMS = {
 
 CLAIMS["C13"] = dict(
     category="proof",
-    text=("Theorems C13_index_cube_block / C13_array_cube_block / C13_index_cube_shape / C13_index_cube_writes_once / C13_slice_is_column "
+    text=("Theorems C13_reduce_blockwise / C13_reduce_local / C13_count_block (Cube/ScaffoldReduce.v: the marginal differencing that ccube applies to the "
+          "WHOLE stacked region, on axis number len(scaffold)+a, transforms the block of any combination j of extra-axis positions exactly as the "
+          "differencing of a cube of its own would, for any value group and any number of axes; with C02: every cell of block j of the reduced stacked "
+          "count region is the number of rows of that cell of the sub-cube over the 1-D slices at j) and "
+          "C13_index_cube_block / C13_array_cube_block / C13_index_cube_shape / C13_index_cube_writes_once / C13_slice_is_column "
           "(coq/theories/Properties/C13.v): for ANY number of dimensions, ANY extra extents and ANY per-sub-cube computation, the stacking "
           "algorithm of ccube.calculate / xcube.calculate (itertools.product over per-dimension (coords, 1-D slice) pairs, block addressed by the "
           "flattened coords) puts at every in-range combination j of extra-axis positions - j = concatenation in dimension order then axis order - "
           "exactly what the sub-cube computes from the corresponding 1-D slices, writes every block exactly once and nothing else; the 1-D slice's "
           "dense content is the column of the original. Tie W2 on every run: real ccube.product() (coords and slices1d slices), real xcube.product "
-          "and real output shapes are compared with the model inside Coq (vm_compute); the one assumption the theorem is parametric in (each "
-          "aggregate's reduce acts block-wise) is tied by comparing EVERY block of count/valid_count/sum/mean of both cube types with the same "
+          "and real output shapes are compared with the model inside Coq (vm_compute); the block-wise action of reduce is proved for the "
+          "differencing model (above); that the REAL reduce of every aggregate acts block-wise is additionally tied by comparing EVERY block of count/valid_count/sum/mean of both cube types with the same "
           "aggregate over the dims sliced at that block on the real code."),
-    note=("Trusted: Coq kernel + vm_compute; the harness abstraction of real indexes to Gallina literals; block-wise reduce is validated at run time, "
-          "not proved; the real slices1d is compared with the specification slices per case (its own theorem belongs to C06). Closed under the global context."),
+    note=("Trusted: Coq kernel + vm_compute; the harness abstraction of real indexes to Gallina literals; block-wise reduce is proved for the model of the differencing (NumPy's n-d slicing semantics are modelled, "
+          "not verified) and validated on every run for the real aggregates; the real slices1d is compared with the specification slices per case (its own theorem belongs to C06). Closed under the global context."),
     technique="Coq proof of the stacking algorithm (lists, NoDup, induction) + in-Coq correspondence + block-vs-sliced-cube differential run",
     design_ref="DESIGN.md 4/C13")
 
